@@ -22,19 +22,19 @@ import (
 func init() { runners["C09"] = runC09 }
 
 type fanMsg struct {
-	Err   bool     `json:"err,omitempty"`
-	Items []hnRes  `json:"items,omitempty"`
-	Node  uint64   `json:"node"`
+	Err   bool    `json:"err,omitempty"`
+	Items []hnRes `json:"items,omitempty"`
+	Node  uint64  `json:"node"`
 }
 type fanCase struct {
-	Kind      string   `json:"kind"` // search | searchpartitions
-	K         int      `json:"k"`
-	Entry     uint64   `json:"entry"`
-	Down      []uint64 `json:"down"`
-	Msgs      []fanMsg `json:"msgs"`
-	Obs       string   `json:"obs"` // ok | oknil | err
-	ObsItems  []hnRes  `json:"obs_items,omitempty"`
-	Determined bool    `json:"determined"` // worker set known (one replica per partition)
+	Kind       string   `json:"kind"` // search | searchpartitions
+	K          int      `json:"k"`
+	Entry      uint64   `json:"entry"`
+	Down       []uint64 `json:"down"`
+	Msgs       []fanMsg `json:"msgs"`
+	Obs        string   `json:"obs"` // ok | oknil | err
+	ObsItems   []hnRes  `json:"obs_items,omitempty"`
+	Determined bool     `json:"determined"` // worker set known (one replica per partition)
 }
 
 type simData struct {
